@@ -123,8 +123,17 @@ theorem text_tokens_are_source_text (s : Bytes) (toks : List Tok) (h : lex Gen.l
     ∀ t ∈ toks, t.typ = .html → t.val <+: s.drop t.off := by
   have := lex_pos Gen.lexTables (by decide) (by decide) s
   rw [h] at this
-  intro t ht
-  exact (this t ht).2.2
+  intro t ht hty
+  exact (this t ht).2.2 (by rw [hty]; rfl)
+
+/-- … and so is every identifier, keyword and number token: the words the parser sees are words
+    that stand in the source (only a string's value is unescaped and a symbol may have lost its `-`) -/
+theorem word_tokens_are_source_words (s : Bytes) (toks : List Tok) (h : lex Gen.lexTables s = .ok toks) :
+    ∀ t ∈ toks, (t.typ = .ident ∨ t.typ = .keyword ∨ t.typ = .num) → t.val <+: s.drop t.off := by
+  have := lex_pos Gen.lexTables (by decide) (by decide) s
+  rw [h] at this
+  intro t ht hty
+  exact (this t ht).2.2 (by rcases hty with h | h | h <;> rw [h] <;> rfl)
 
 /-! ### literal text through the whole pipeline (lexer, parser, interpreter of the model) -/
 
